@@ -5,14 +5,77 @@ import json
 VERIF = os.path.dirname(os.path.dirname(os.path.abspath(__file__)))
 
 # property id -> (category, technique, level text, level note, design ref)
+MC = 'model_checking'
+BFS = ('implementation-level explicit-state BFS over operation histories of the real objects (replay-based states, '
+       'dedup by object-graph canonical form), per-type transition budget; ')
+NOTE = ('Bounded: per-type depth by budget, reduced alphabet R1 (3 representatives per run of interchangeable leaves), '
+        'opaque children. Trusts the pinned schema copy and my automaton construction (cross-checked against the JDK '
+        'validator in setup and against the library templates by C03). Known genuine defects are matched by exact key.')
 CHECKS = {
-    'C02': ('model_checking',
-            'model-driven: all traces of each content-model DFA up to a bound replayed on the real element',
+    'C01': (MC, BFS + 'invariant: every successful to_string emits a word of the reference automaton',
+            'All histories of add / forward add / remove / replace / xml_* set+unset / to_string(intelligent_choice on/off) '
+            'up to the per-type depth are executed on fresh real elements for all 94 types; every successful serialisation '
+            'is parsed and its child sequence must be accepted by the reference content-model automaton.', NOTE, '4 C01'),
+    'C02': (MC, 'model-driven: all traces of each content-model DFA up to a bound replayed on the real element',
             'Every accepted word (up to a per-type length bound), a transition cover and all pumped simple cycles of the '
             'reference DFA of each of the 94 content models are replayed against the real element; acceptance, final '
             'check and emitted order are compared with the word. Exhaustive within the stated word bounds.',
             'Trusts the pinned schema copy, my Glushkov construction (cross-checked against the JDK validator in setup '
             'and against the library templates by C03); children are opaque instances.', '4 C02'),
+    'C03': (MC, 'complete finite comparison of names / bindings / attribute tables / simple types with the reference; '
+                'content-model language equivalence by BFS of the product automaton; words <= 3 replayed on the real element',
+            'Each sub-claim is a finite enumeration completed in full; language equivalence of the library templates (and of '
+            'a fresh instance\'s container) with the schema is decided on automata, not sampled.',
+            'Trusts the reference reading of the pinned schema. Union-type classes are compared by members, not text.', '4 C03'),
+    'C04': (MC, 'complete cross product classes x attribute names x value classes x surfaces against a reference dictionary; '
+                'assignment histories up to depth 2/3',
+            'Every element class, every attribute name (own + foreign + undeclared), valid/invalid/wrong-type/None values chosen by the '
+            'JDK validator, through constructor keyword, dot assignment and the parser ladder; then all short set/overwrite/remove '
+            'histories with serialisation after each step.', 'Value classes are one valid / one invalid value per attribute type; the '
+            'JDK validator decides validity.', '4 C04'),
+    'C05': (MC, 'complete cross product simple types x value alphabet x entry points, every verdict from the JDK schema validator',
+            'All 145+14 simple types against all enumeration literals, numeric boundary probes, strings enumerated from each pattern\'s '
+            'syntax tree (with near misses), whitespace variants and Python numbers/objects, through the type class, element '
+            'constructor, value_ assignment and an attribute host.', 'Says nothing outside the value alphabet. JDK Xerces is the lexical oracle.',
+            '4 C05'),
+    'C06': (MC, BFS + 'invariant on views / parents / serialised multiset in every reached state', 'Same exploration as C01; in every '
+            'reached state (including after failed calls) both child views must equal the reference list (identity-wise), parents must be '
+            'right, removed children orphaned, and the output must contain each child once.', NOTE, '4 C06'),
+    'C07': (MC, BFS + 'oracle: exhaustive completion search on the reference automaton after every successful addition',
+            'Every successful add / forward add / dot set reached by the exploration must leave a multiset of children that some '
+            'schema-valid word can still contain (search over NFA state sets x remaining multiset, exhaustive).', NOTE, '4 C07'),
+    'C10': (MC, BFS + 'deviation = failing call; observational fingerprint (views, attributes, value, serialisation verdict, '
+            'acceptance of every next symbol) compared before/after every failing call', 'Every failing call met (alphabet arguments, '
+            'out-of-alphabet arguments, failing attribute/value assignments, refused serialisations) is followed by a fingerprint '
+            'comparison computed by replay on fresh objects.', NOTE + ' Fingerprint depth k=1.', '4 C10'),
+    'C11': (MC, BFS + 'differential oracle: fingerprint after each removal vs a rebuilt twin holding the remaining children',
+            'Every successful remove / xml_x=None in the add/remove exploration is compared with a fresh twin built from the remaining '
+            'children in the same relative order (forward arguments preserved).', NOTE + ' Fingerprint depth k=1.', '4 C11'),
+    'C12': (MC, 'all multisets with a unique arrangement x all distinct permutations replayed; additions-only BFS with exhaustive '
+                'completion search for every rejection',
+            'Part (a) enumerates every multiset (size by budget) whose reference automaton has exactly one arrangement and replays every '
+            'permutation; part (b) judges every rejected add_child of the additions-only exploration.', NOTE, '4 C12'),
+    'C13': (MC, 'product exploration of two live instances (all pairs of depth-2 histories x 3 merge shapes) with object-graph '
+                'equality, plus order-independence of all acceptance verdict tables against one pristine process per class',
+            'Isolation is judged on the whole object graph reachable from the untouched instance and on the complete verdict tables of '
+            'all 441 classes under sorted / reversed / post-workload orders.', 'Merge shapes before/inside/after only; alphabet capped.', '4 C13'),
+    'C14': (MC, BFS + 'deepcopy in every reached state, then every single mutation on either side; attribute recipes x check flag x nesting',
+            'Copies are compared with the original in every state of the structural exploration and for every attribute recipe '
+            '(keyword, dot, overwrite, removal) of every class; aliasing is probed by mutating one side and re-observing the other.',
+            NOTE + ' Removal histories are left to C11.', '4 C14'),
+    'C15': (MC, 'lock-step twin exploration: all shortcut-operation sequences up to depth 2/3 vs the explicit API; all attribute '
+                'sequences of length <= 2', 'Same outcome class and serialisation at every step; read-back through xml_* and dot '
+            'attributes compared with the serialised order / stored values.', 'The explicit twin encodes the documented mapping.', '4 C15'),
+    'C16': (MC, 'all strings up to length 2/3 over a markup/whitespace/non-BMP alphabet x all text and attribute hosts; '
+                + BFS + 'to_string (element and child) as operations with fingerprint comparison',
+            'Escaping is decided by re-parsing with xml.etree; purity by comparing the fingerprint of histories with and without the '
+            'interposed serialisation; subtrees are compared alone vs nested.', NOTE, '4 C16'),
+    'C18': (MC, 'all words (valid or not) up to a length bound on unchecked instances + all (parent, child) flag assignments',
+            'Unchecked elements must accept everything in insertion order and agree byte-for-byte with checked twins on valid words; '
+            'checked children stay checked inside unchecked parents and vice versa.', NOTE, '4 C18'),
+    'C19': (MC, BFS + 'monitor on every call: exception class/site, captured stdout/stderr, per-call alarm; out-of-alphabet arguments included',
+            'Every call of the misuse exploration (foreign elements, non-elements, None, detached children, bad forward indices, both '
+            'intelligent_choice values) must succeed or raise a documented type, silently.', NOTE, '4 C19'),
 }
 
 NOT_YET = {}
